@@ -118,3 +118,58 @@ CONTRACTS += [
              ensures=[("one IRDecider with one row per tuple, in order, rows after the first combined with combine_type", _multi_post)],
              uses=_U, properties=("C01",), min_obligations=1, no_replay=True, note="three rows (bounded list length)"),
 ]
+
+
+# =================================================================================================
+# LayoutPlanner._inject_output_value_wire_color: a copy-mode decider (bundle gate / conditional value) must copy from the wire
+# that DELIVERS the copied value.  The edge of a bundle source may be registered under `signal-everything` (a gate's own
+# output) or under `signal-each` (constants, each-results, filters); for a wire-merged bundle the value arrives on its
+# members' wires.  Concrete scenarios (one gate, its source(s), a recorded edge colour).
+# =================================================================================================
+LPQ = "dsl_compiler/src/layout/planner.py::LayoutPlanner."
+
+
+def _ovw_contract(tag, output_value, edge_colors, merges, want):
+    def resolve(ex, a):
+        sid = a.signal_id
+        return sid.source_id if isinstance(sid, SObj) else None
+
+    def get_color(ex, a):
+        key = (a.source_entity, a.sink_entity, a.signal_name) if hasattr(a, "source_entity") else None
+        return edge_colors.get(key, "red")
+
+    sigid = ty.TObj("SignalRef", only=("SignalRef",), ftypes=(("source_id", ty.TConcrete("SRC")),))
+    props = {"copy_count_from_input": True, "output_value": output_value}
+
+    def post(a, res):
+        return a.placement.properties.get("output_value_wires") == want
+
+    def set_props(a):
+        a.placement.properties["output_value_signal_id"] = a.self._scenario_ref
+        return True
+
+    return Contract(
+        qualname=LPQ + "_inject_output_value_wire_color",
+        params={"self": ty.TObj("LayoutPlanner", only=("LayoutPlanner",)),
+                "placement": ty.TObj("EntityPlacement", only=("EntityPlacement",), ftypes=(("properties", ty.TConcrete(dict(props))), ("ir_node_id", ty.TConcrete("GATE")))),
+                "injected_count": ty.TConcrete(0)},
+        requires=[("(scenario reference)", set_props)],
+        ensures=[(f"the gate copies from {sorted(want)}", post)],
+        uses={"LayoutPlanner._resolve_source_entity": Contract(qualname=LPQ + "_resolve_source_entity", params={"self": ty.TOpaque("s"), "signal_id": ty.TOpaque("i")}, effect=resolve, verify=False,
+                                                               note="the entity that produces the referenced value"),
+              "ConnectionPlanner.get_wire_color_for_edge": Contract(qualname="dsl_compiler/src/layout/connection_planner.py::ConnectionPlanner.get_wire_color_for_edge",
+                                                                    params={"self": ty.TOpaque("c"), "source_entity": ty.TOpaque("a"), "sink_entity": ty.TOpaque("b"), "signal_name": ty.TOpaque("n")},
+                                                                    effect=get_color, verify=False, note="recorded colour of the edge, red when unknown"),
+              "opaque.info": "skip"},
+        dynamic_types={"self": {"connection_planner": ty.TObj("ConnectionPlanner", only=("ConnectionPlanner",)), "_wire_merge_junctions": ty.TConcrete(dict(merges)),
+                                "_scenario_ref": sigid, "diagnostics": ty.TOpaque("diag")},
+                       "self.connection_planner": {"_edge_wire_colors": ty.TConcrete(dict(edge_colors))}},
+        properties=("C02", "C01"), min_obligations=1, no_replay=True, note=tag)
+
+
+CONTRACTS += [
+    _ovw_contract("gate over a constant bundle (edge under signal-each, green)", "signal-everything", {("SRC", "GATE", "signal-each"): "green"}, {}, {"green"}),
+    _ovw_contract("gate over another gate (edge under signal-everything, green)", "signal-everything", {("SRC", "GATE", "signal-everything"): "green"}, {}, {"green"}),
+    _ovw_contract("conditional value on a named signal (edge under its own name, green)", "signal-A", {("SRC", "GATE", "signal-A"): "green"}, {}, {"green"}),
+    _ovw_contract("no recorded edge: default red", "signal-A", {}, {}, {"red"}),
+]
